@@ -16,7 +16,12 @@ import vlib
 LEVEL = "model_checking"
 DUMMY = ([{"cls": "b", "n": "vb%d" % k, "prec": k} for k in range(1, 11)] +
          [{"cls": "u", "n": "vu"}, {"cls": "b", "n": "vbu6", "prec": 6}, {"cls": "u", "n": "vbu6"}, {"cls": "b", "n": "vbu4", "prec": 4}, {"cls": "u", "n": "vbu4"},
-          {"cls": "n", "n": "vn"}])
+          {"cls": "n", "n": "vn"},
+          # names registered in several classes at once (the lexer picks one of seven token classes per level)
+          {"cls": "b", "n": "vbn3", "prec": 3}, {"cls": "n", "n": "vbn3"},
+          {"cls": "b", "n": "vbun4", "prec": 4}, {"cls": "u", "n": "vbun4"}, {"cls": "n", "n": "vbun4"},
+          {"cls": "b", "n": "vbun9", "prec": 9}, {"cls": "u", "n": "vbun9"}, {"cls": "n", "n": "vbun9"}])
+# (the class unary+nular is represented by a registered name: dynamicSimulationEnabled)
 LEAF = {"x": "1", "y": "2"}
 
 
@@ -182,10 +187,15 @@ def registry_cases(ops, rng, tier):
         cases.append((u, plus(L1, {"k": "un", "op": u, "x": L2})))          # 1 + u 2
         cases.append((u, {"k": "un", "op": u, "x": {"k": "un", "op": "str", "x": L1}}))
     for n in sorted(nular):
-        if n in unary or n in bins or n in skip:
+        if n in skip:
             continue
+        # a nular operator is an operand - also when the same name is a unary and/or binary operator as well
         cases.append((n, plus(L1, {"k": "nul", "op": n})))
         cases.append((n, {"k": "arr", "els": [{"k": "nul", "op": n}, L2]}))
+        cases.append((n, {"k": "arr", "els": [L1, {"k": "nul", "op": n}]}))
+        if n in bins and len(bins[n]) == 1:
+            lv = next(iter(bins[n]))
+            cases.append((n, {"k": "bin", "op": n, "lv": lv, "l": {"k": "arr", "els": [{"k": "nul", "op": n}]}, "r": L2}))      # [n] n 2
     return cases
 
 
@@ -242,6 +252,10 @@ def run(rep, tier, seed, replay):
         for focus, t in registry_cases(ops, rng, tier):
             n += 1
             cases.append({"id": "r%d" % n, "tree": t, "style": "min", "text": "vd__v = " + render(t, "min", rng), "run": False, "focus": focus})
+        # the same templates over the synthetic operators (the classes and levels no registered name has)
+        for focus, t in registry_cases(DUMMY, rng, "thorough"):
+            n += 1
+            cases.append({"id": "r%d" % n, "tree": t, "style": "min", "text": "vd__v = " + render(t, "min", rng), "run": False, "focus": focus, "dummy": DUMMY})
     rep.evaluations = len(cases)
     rep.rule = ("every tree of depth <= 2 over one operator per class/level (TLC-enumerated) x parenthesisation styles with random case/whitespace/comments, seeded random trees of depth 3-6 over all ten levels, "
                 "and grouping templates over every registered binary/unary/nular name; distinct by text; non-trivial = at least one operator")
